@@ -3,7 +3,7 @@ CONSTANTS
   Regs <- MCRegs
   TU = 1
   TA = 3
-  MaxT = 5
+  MaxT = 4
   ClearFirst = FALSE
 VIEW view
 INVARIANTS EveryAnnouncementAccepted DetectorOutlivesStation SessionMatchesRegistration ClearEmpties
